@@ -26,11 +26,11 @@ type Violation struct {
 
 // Result is what evaluating one history (= one transition into its final state) produced.
 type Result[O any] struct {
-	Key        string      // exact state key of the final state
-	Violations []Violation // oracle failures observed on this transition / in this state
-	Outcomes   []string    // labels for distinct-outcome statistics
-	Next       []O         // operations enabled in the final state (within bounds)
-	Checks     int         // number of individual oracle comparisons performed
+	Key        string         // exact state key of the final state
+	Violations []Violation    // oracle failures observed on this transition / in this state
+	Outcomes   []string       // labels for distinct-outcome statistics
+	Next       []O            // operations enabled in the final state (within bounds)
+	Checks     int            // number of individual oracle comparisons performed
 	Counters   map[string]int // additional measured counters (crash points, probes, ...)
 }
 
